@@ -777,5 +777,30 @@ def r12_groupby_input_sorted(chk):
 
 
 
+def r13_quoted_text_ends_at_the_next_quote(chk, rule='C02.R13'):
+    """SMI texts have no escape sequences: the token is everything from one quote to the next"""
+    lm = lexer_model(chk)
+    chk.doc(rule, 'the QUOTED_STRING rule matches exactly: a quote, any characters other than a quote (line breaks and '
+                  'backslashes included), a quote - decided by probing the regex constant: it matches "", "a", a text '
+                  'ending in a backslash, a text with line breaks, and it matches nothing that holds a third quote or '
+                  'lacks the closing one.  A rule that treats backslash-quote as an escape lets a text ending in a '
+                  'backslash run on into the following declarations')
+    rs = [r for r in lm.rules['INITIAL'] if r.tokname == 'QUOTED_STRING']
+    chk.ob(rule, 'QUOTED_STRING/rule-found', len(rs) == 1, LEXER, '%d rules' % len(rs))
+    if len(rs) != 1:
+        return
+    r = rs[0]
+    yes = ['""', '"a"', '"a\\"', '"\\"', '"a\nb"', '"a\r\nb"', '"\\n"', '"C:\\MIBS\\"', "\"it's\"", '"a -- b"']
+    no = ['"a" b "c"', '"a\\" b "c"', '"a', 'a"', '"a""b"', '"a\\""']
+    ok_y = [p_ for p_ in yes if not rx.matches_exactly(r.pattern, lm.flags, p_)]
+    ok_n = [p_ for p_ in no if rx.matches_exactly(r.pattern, lm.flags, p_)]
+    chk.ob(rule, 'QUOTED_STRING/every-text-is-one-token', not ok_y, where(chk.model.mod(LEXER), r.fn) if r.fn else LEXER,
+           'regex %r does not match the text(s) %r as one token' % (r.pattern, ok_y))
+    chk.ob(rule, 'QUOTED_STRING/ends-at-the-next-quote', not ok_n, where(chk.model.mod(LEXER), r.fn) if r.fn else LEXER,
+           'regex %r matches %r as one token: a quote inside the match means the text did not end at its closing quote' % (
+               r.pattern, ok_n))
+
+
+
 RULES = [r1_nothing_dropped, r2_list_idiom, r2b_operand_shapes, r3b_prepdata, r3_producer_consumer, r4_token_values, r5_layout, r6_entry_point,
-         r7_history_independence, r8_number_tokens, r9_identifier_classes, r10_class_tables_not_mutated, r11_parts_reach_the_tree, r12_groupby_input_sorted]
+         r7_history_independence, r8_number_tokens, r9_identifier_classes, r10_class_tables_not_mutated, r11_parts_reach_the_tree, r12_groupby_input_sorted, r13_quoted_text_ends_at_the_next_quote]
